@@ -204,12 +204,16 @@ theorem printfTail_some {s : St} (h : Inv s) {v : Nat} (hv : v < s.n) {C : Nat} 
     simp only [hd, hm, vsnStore_fits (Nat.lt_add_one _), hw, hs, Option.bind_some, Option.pure_def]
     exact ⟨_, rfl⟩
 
-theorem printf_some {s : St} (h : Inv s) {v : Nat} (hv : v < s.n) (f : List Fmt) :
-    ∃ r, printf s v f = some r := by
+/-- **capacity handling for every result length**: whatever the formatter produces, both attempts run -/
+theorem printfOut_some {s : St} (h : Inv s) {v : Nat} (hv : v < s.n) (out : List Nat) :
+    ∃ r, printfOut s v out = some r := by
   obtain ⟨s1, h1⟩ := detach_some h v (c := 0) (m := Generated.printfBuf) (Nat.zero_le _)
   obtain ⟨E1, X1⟩ := eff_detach h hv h1
-  simp only [printf, h1, Option.bind_eq_bind, Option.bind_some]
+  simp only [printfOut, h1, Option.bind_eq_bind, Option.bind_some]
   exact printfTail_some E1.inv (by rw [E1.n]; exact hv) X1 _
+
+theorem printf_some {s : St} (h : Inv s) {v : Nat} (hv : v < s.n) (f : List Fmt) :
+    ∃ r, printf s v f = some r := printfOut_some h hv _
 
 theorem mapUntilNul_some {f : Nat → Nat} : ∀ {m : List Byte} {L : Nat} {c : List Nat},
     m.take L = c.map some → m[L]? = some (some 0) → ∃ m', mapUntilNul f m = some m'
@@ -436,6 +440,14 @@ theorem fromFmt_some {s : St} (h : Inv s) {tmp : Nat} (ht : tmp < s.n) (v : Nat)
   simp only [fromFmt, h1, h2, Option.bind_eq_bind, Option.bind_some, Option.pure_def]
   exact ⟨_, rfl⟩
 
+theorem fromOut_some {s : St} (h : Inv s) {tmp : Nat} (ht : tmp < s.n) (v : Nat) (out : List Nat) :
+    ∃ s', fromOut s v out tmp = some s' := by
+  obtain ⟨⟨s1, r⟩, h1⟩ := printfOut_some h ht out
+  have E1 := (eff_printfOut h ht h1).1
+  obtain ⟨s2, h2⟩ := assign_some E1.inv v tmp
+  simp only [fromOut, h1, h2, Option.bind_eq_bind, Option.bind_some, Option.pure_def]
+  exact ⟨_, rfl⟩
+
 theorem fromPrintf_some {s : St} (h : Inv s) {tmp : Nat} (ht : tmp < s.n) (v : Nat) (f : List Fmt) :
     ∃ s', fromPrintf s v f tmp = some s' := by
   obtain ⟨s0, h0⟩ := ctorCap_some s tmp Generated.fromPrintfBuf
@@ -453,7 +465,7 @@ def ValidArgs (s : St) : Op → Prop
   | .ctorEmpty v | .ctorPtr v _ | .ctorFill v _ _ | .ctorCap v _ | .clear v | .detach v | .cview v | .resize v _
   | .reserve v _ | .fillFrom v _ _ | .appendP v _ | .appendC v _ | .prependP v _ | .replaceC v _ _ | .lower v
   | .upper v | .trim v _ | .join v _ _ | .replaceL v _ _ | .printf v _ | .plusEqC v _ | .fromCStr v _ | .fromCStrN v _
-  | .fromBool v _ | .fromD v _ | .fromU v _ | .fromPrintf v _ => validVar s v = true
+  | .fromBool v _ | .fromD v _ | .fromU v _ | .fromPrintf v _ | .printfO v _ | .fromOut v _ => validVar s v = true
   | .attach v r off len => validVar s v = true ∧ off + len < (s.regs r).length
   | .ctorCopy v w => validVar s v = true ∧ validVar s w = true ∧ v ≠ w
   | .assign v w | .appendS v w | .prependS v w | .substr v w _ _ | .tokenC v w _ _ | .tokenS v w _ _ | .plusEqS v w =>
@@ -612,6 +624,14 @@ theorem step_total_all {s : St} (g : Good s) {op : Op} (va : ValidArgs s op)
   | fromPrintf v f =>
     simp only [ValidArgs] at va; have V := valid_facts va
     simp only [step, va, if_true]; exact fromPrintf_some h V.2.2.2.2.1 v f
+  | printfO v out =>
+    simp only [ValidArgs] at va; have V := valid_facts va
+    simp only [step, va, if_true]
+    obtain ⟨r, hr⟩ := printfOut_some h V.1 out
+    simp only [hr, Option.map_some]; exact ⟨_, rfl⟩
+  | fromOut v out =>
+    simp only [ValidArgs] at va; have V := valid_facts va
+    simp only [step, va, if_true]; exact fromOut_some h V.2.2.2.2.1 v out
 
 /-! ### the invariant along histories -/
 
